@@ -331,6 +331,47 @@ def check(run):
                 ok, why = False, f'raises {e}'
             run.check(ok, 'D4', 'parse_hashmap_aug[pruned]' if not ok else f'aug-pruned[{tag}]', f'{tag}: {why}', wa)
             run.evaluations += 1
+    # extras that own a reference (a currency collection with extra currencies): leaf = extra's reference first; fork = after the two children
+    aug_ref = (aug[0], aug[1], True)
+    for width, keys in sets:
+        kv = {format(k, f'0{width}b'): format((k * 37 + 1) % 256 if width <= 8 else k % 256, '08b') for k in keys}
+        tree, _ = dictspec.build(kv, width, None, aug_ref)
+        it = Interp(prog)
+        cell = bocrun.build(it, tree)
+        tag = f'aug (extra with a reference) w={width},keys={list(keys)}'
+        try:
+            res = it.invoke(parse_aug, [cm.call_method(it, cell, 'begin_parse'), K(width), lam(prog, 'lambda s: s.load_uint(8)'),
+                                        lam(prog, 'lambda s: (s.load_uint(4), s.load_ref().begin_parse().load_uint(4))')], {})
+            dct, extras = res.items
+            got = {k: (v.v if isinstance(v, K) else repr(v)) for k, v in dct.d.items()}
+            want = {k: int(kv[format(k, f'0{width}b')], 2) for k in keys}
+            exs = [tuple(x.v if isinstance(x, K) else repr(x) for x in e.items) if isinstance(e, ListV) else repr(e) for e in extras.items]
+            ok = got == want and all(isinstance(e, tuple) and e[1] == 0b1010 for e in exs) and [e[0] for e in exs] == _post_order_extras(kv, width, aug)
+            why = 'values and extras (with their references) as specified' if ok else f'values ok={got == want}; extras {exs[:6]}'
+        except RaiseEx as e:
+            ok, why = False, f'raises {e}'
+        run.check(ok, 'D4', 'parse_hashmap_aug[extra owning a reference]' if not ok else f'parse_aug[{tag}]', f'{tag}: {why}', wa)
+        run.evaluations += 1
+    # equal sub-trees stored once (one cell object referenced twice, as after loading a bag of cells), and the same dictionary parsed twice:
+    # parsing must not consume the dictionary's own cells
+    for width, keys in ((3, (0, 1, 4, 5)), (4, (2, 3, 10, 11, 6, 14))):
+        kv = {format(k, f'0{width}b'): format((k % (1 << (width - 1))) * 37 % 256, '08b') for k in keys}
+        tree = dictspec.intern(dictspec.build(kv, width)[0])
+        it = Interp(prog)
+        cell = bocrun.build(it, tree)
+        before = bocrun.ckey(it, cell)
+        tag = f'shared sub-trees w={width},keys={list(keys)}'
+        try:
+            outs = []
+            for _ in range(2):
+                res = it.invoke(parse, [cm.call_method(it, cell, 'begin_parse'), K(width)], {})
+                outs.append({k: bocrun.ckey(it, v)[0] for k, v in res.d.items()})
+            ok = outs[0] == kv and outs[1] == kv and bocrun.ckey(it, cell) == before
+            why = 'both parses return all leaves and the dictionary cells are unchanged' if ok else f'first parse {dict(list(outs[0].items())[:4])}, second {dict(list(outs[1].items())[:4])}, expected {dict(list(kv.items())[:4])}; cells unchanged: {bocrun.ckey(it, cell) == before}'
+        except RaiseEx as e:
+            ok, why = False, f'raises {e}'
+        run.check(ok, 'D4', 'parse_hashmap[shared child cells / repeated parse]' if not ok else f'parse[{tag}]', f'{tag}: {why}', wp)
+        run.evaluations += 1
     pin_aug_e(run, prog, 'D4', aug, wa)
 
 
